@@ -49,6 +49,7 @@ def run(chk):
     # R6: the flags and identifiers the rules above read are the ones the constructors were given
     aud.ctor_fields(chk, "C08.R6", REL, "CVR", ["id", "votes", "phantom", "tally_pool", "pool"], "phantom records are recognised by obj.phantom")
     aud.ctor_fields(chk, "C08.R6", REL, "Stratum", ["max_cards", "use_style"], "the accounting scheme and the card bound come from the stratum")
+    aud.ctor_fields(chk, "C08.R6", REL, "Contest", ["cards", "id"], "an unspecified card bound stays None, which is what make_phantoms tests")
     # R7: the manifest side of the same accounting: the phantom batch holds max_cards - manifest_cards cards (C17.R3)
     from . import c17
     def _prep(c):
